@@ -547,6 +547,79 @@ def mapValues (f : K → V → V) : Tree K V → Tree K V
   | .leaf k v => .leaf k (f k v)
   | .node h k v l r => .node h k (f k v) (mapValues f l) (mapValues f r)
 
+/-! ### `compare` / `equal` / `iter` (ordered traversal through `NodeEnumerationHelper`) -/
+
+/-- `NodeEnumerationHelper<K, V>(End, More(K, V, Map<K, V>, NodeEnumerationHelper<K, V>))` (map.sam:6) -/
+inductive Enum (K V : Type) where
+  | done : Enum K V
+  | more (k : K) (v : V) (r : Tree K V) (e : Enum K V) : Enum K V
+
+/-- `NodeEnumerationHelper.cons` (map.sam:10) -/
+def Enum.cons : Enum K V → Tree K V → Enum K V
+  | e, .empty => e
+  | e, .leaf k v => .more k v .empty e
+  | e, .node _ k v l r => Enum.cons (.more k v r e) l
+
+/-- number of bindings -/
+def card : Tree K V → Nat
+  | .empty => 0
+  | .leaf _ _ => 1
+  | .node _ _ _ l r => card l + card r + 1
+
+def Enum.size : Enum K V → Nat
+  | .done => 0
+  | .more _ _ r e => 1 + card r + Enum.size e
+
+omit [DecidableEq K] [DecidableEq V] in
+theorem Enum.size_cons (e : Enum K V) (t : Tree K V) : (Enum.cons e t).size = e.size + card t := by
+  induction t generalizing e with
+  | empty => simp [Enum.cons, card]
+  | leaf k v => simp [Enum.cons, Enum.size, card]; omega
+  | node h k v l r ihl _ => simp [Enum.cons, ihl, Enum.size, card]; omega
+
+/-- `compareHelper` (map.sam:262) (returned `c` instead of `c1` before fix 9a6033f). -/
+def compareHelper (cmp : K → K → Int) (f : V → V → Int) : Enum K V → Enum K V → Int
+  | .done, .done => 0
+  | .done, .more _ _ _ _ => -1
+  | .more _ _ _ _, .done => 1
+  | .more k1 v1 r1 e1, .more k2 v2 r2 e2 =>
+    let c := cmp k1 k2
+    if c ≠ 0 then c
+    else
+      let c1 := f v1 v2
+      if c1 ≠ 0 then c1 else compareHelper cmp f (Enum.cons e1 r1) (Enum.cons e2 r2)
+termination_by e1 _ => e1.size
+decreasing_by (have := Enum.size_cons e1 r1; simp only [Enum.size]; omega)
+
+/-- `compare` (map.sam:254) -/
+def compare (cmp : K → K → Int) (f : V → V → Int) (a b : Tree K V) : Int :=
+  compareHelper cmp f (Enum.cons .done a) (Enum.cons .done b)
+
+/-- `equalHelper` (map.sam:291) -/
+def equalHelper (cmp : K → K → Int) (f : V → V → Bool) : Enum K V → Enum K V → Bool
+  | .done, .done => true
+  | .done, .more _ _ _ _ => false
+  | .more _ _ _ _, .done => false
+  | .more k1 v1 r1 e1, .more k2 v2 r2 e2 =>
+    cmp k1 k2 = 0 && f v1 v2 && equalHelper cmp f (Enum.cons e1 r1) (Enum.cons e2 r2)
+termination_by e1 _ => e1.size
+decreasing_by (have := Enum.size_cons e1 r1; simp only [Enum.size]; omega)
+
+/-- `equal` (map.sam:284) -/
+def equal (cmp : K → K → Int) (f : V → V → Bool) (a b : Tree K V) : Bool :=
+  equalHelper cmp f (Enum.cons .done a) (Enum.cons .done b)
+
+/-- `iter` (map.sam:305): the side-effecting callback is modelled as a state transformer; calls
+happen in the order `l.iter(f)`, `f(k, v)`, `r.iter(f)`. -/
+def iter {σ : Type} (f : K → V → σ → σ) : Tree K V → σ → σ
+  | .empty, s => s
+  | .leaf k v, s => f k v s
+  | .node _ k v l r, s => iter f r (f k v (iter f l s))
+
+/-- `minKey` / `maxKey` (map.sam:399-401) -/
+def minKey (t : Tree K V) : Option K := (min t).map (·.1)
+def maxKey (t : Tree K V) : Option K := (max t).map (·.1)
+
 /-! ### Abstraction and invariants (used by the theorems; also printed by the driver) -/
 
 /-- in-order list of bindings: the finite map a tree denotes -/
